@@ -206,11 +206,22 @@ def lake_build(targets=("SSVerif", "ssdriver")):
 _DRIVER_COPY = None
 
 # which driver sub-commands (one executable each, lean/Driver/Exe) a property's check runs
+def atomic_write(path, text):
+    """write a generated file so that a concurrent reader (another check's lake build) never sees it half written"""
+    import os as _os, tempfile as _tf
+    path = Path(path)
+    path.parent.mkdir(parents=True, exist_ok=True)
+    fd, tmp = _tf.mkstemp(dir=str(path.parent), prefix="." + path.name + ".", suffix=".tmp")
+    with _os.fdopen(fd, "w") as f:
+        f.write(text)
+    _os.replace(tmp, path)
+
+
 DRIVERS = {"C01": ["c01", "c01s"], "C02": ["c02", "c02s"], "C03": ["c01", "c01s", "c07"], "C11": ["c11"], "C12": ["c11", "c12r"], "C14": ["c14", "c14f"]}
 
 
 # additional theorem modules (built and audited with the property): composed results living in their own files
-EXTRA_PROPS = {"C02": ["C02Lex", "C02Xlate", "C02Search"], "C14": ["C14Fmt"], "C09": ["C09Api"], "C18": ["C18More", "C18Xlate"], "C12": ["C12Round"], "C11": ["C11Build", "C11Cache", "C11Widths"], "C01": ["C01Xlate"], "C19": ["C19Xlate"], "C05": ["C05Names", "C05Repr"], "C20": ["C20Xlate", "C20Iter"], "C15": ["C15Xlate"], "C10": ["C10More", "C10Bridge"], "C08": ["C08Static"], "C07": ["C07Xlate", "C07Hist"], "C06": ["C06Closed", "C06Xlate"], "C04": ["C04Json", "C04Xlate", "C04Tree"], "C03": ["C03Ret", "C03End"], "C16": ["C16Xlate"], "C17": ["C17Fuel"]}
+EXTRA_PROPS = {"C02": ["C02Lex", "C02Xlate", "C02Search"], "C14": ["C14Fmt"], "C09": ["C09Api"], "C18": ["C18More", "C18Xlate", "C18Cmn"], "C12": ["C12Round"], "C11": ["C11Build", "C11Cache", "C11Widths"], "C01": ["C01Xlate"], "C19": ["C19Xlate"], "C05": ["C05Names", "C05Repr"], "C20": ["C20Xlate", "C20Iter"], "C15": ["C15Xlate"], "C10": ["C10More", "C10Bridge"], "C08": ["C08Static", "C08Query"], "C07": ["C07Xlate", "C07Hist"], "C06": ["C06Closed", "C06Xlate"], "C04": ["C04Json", "C04Xlate", "C04Tree"], "C03": ["C03Ret", "C03End"], "C16": ["C16Xlate"], "C17": ["C17Fuel"]}
 
 
 def drivers_of(prop):
